@@ -569,14 +569,43 @@ func truncationProbe(rng *rand.Rand, x *runner) {
 	x.dump()
 }
 
+// straddleCase aims calls at second boundaries so that some clock windows
+// contain one: a burst of bans across a whole second (the stored expiry may be
+// either second), then a burst of status queries across the expiry second (either
+// answer is right inside such a window; the Lean driver keeps both candidates).
+func straddleCase(rng *rand.Rand, x *runner) {
+	b := randBase(rng)
+	if f := nowMs() % 1000; f < 990 {
+		x.sleep(994 - f)
+	}
+	for i := 0; i < 12; i++ {
+		x.ban(spell(rng, b), 1, 5000)
+	}
+	x.dump()
+	x.ban(spell(rng, b), 2, 1500)
+	_, exps := x.w.dumpRaw()
+	if len(exps) != 1 {
+		return
+	}
+	x.sleepUntil(exps[0]*1000 - 6)
+	for i := 0; i < 14; i++ {
+		x.status(spell(rng, b))
+	}
+	x.dump()
+}
+
 // ---------------------------------------------------------------- entry
 
 func Run(t *tr.W, thorough bool) {
 	mult := tr.EnvInt("VERIF_BUDGET", 1)
-	nRandom, nOps := 40*mult, 36
-	nSpell, nLapse, nProbe := 12*mult, 6*mult, 3
+	nRandom, nOps := 64*mult, 36
+	nSpell, nLapse, nProbe, nStraddle := 12*mult, 6*mult, 3, 6
 	if thorough {
 		nRandom, nOps, nSpell, nLapse, nProbe = 600*mult, 60, 100*mult, 60*mult, 10
+	}
+	if os.Getenv("VERIF_SEARCH") == "1" {
+		// bin/check is looking for a failing input after a broken tie: wall-clock bound (cases sleep), not op bound
+		nRandom, nOps, nSpell, nLapse, nProbe = 300, 40, 60, 12, 3
 	}
 	type job struct {
 		kind string
@@ -585,6 +614,9 @@ func Run(t *tr.W, thorough bool) {
 	var jobs []job
 	for i := 0; i < nProbe; i++ {
 		jobs = append(jobs, job{"probe", int64(i)})
+	}
+	for i := 0; i < nStraddle; i++ {
+		jobs = append(jobs, job{"straddle", int64(i)})
 	}
 	for i := 0; i < nSpell; i++ {
 		jobs = append(jobs, job{"spellings", int64(i)})
@@ -606,7 +638,7 @@ func Run(t *tr.W, thorough bool) {
 			defer func() { <-sem }()
 			r := &rec{hits: map[string]int{}}
 			results[i] = r
-			salt := int64(1300000) + map[string]int64{"probe": 1, "spellings": 2, "lapse": 3, "random": 4}[j.kind]*100000 + j.seed
+			salt := int64(1300000) + map[string]int64{"probe": 1, "spellings": 2, "lapse": 3, "random": 4, "straddle": 5}[j.kind]*100000 + j.seed
 			rng := tr.Rng(salt)
 			w, err := newWorld()
 			if err != nil {
@@ -622,6 +654,8 @@ func Run(t *tr.W, thorough bool) {
 				spellingsCase(rng, x)
 			case "lapse":
 				lapseCase(rng, x)
+			case "straddle":
+				straddleCase(rng, x)
 			default:
 				randomCase(rng, x, nOps)
 			}
